@@ -7,7 +7,7 @@ From Coq Require Import List Arith ZArith.
 Import ListNotations.
 From YP Require Import Base.Str Term.Term Unify.Unify Unify.UnifyGen Lang.Ast Comp.IR Comp.CompileClause Sem.Machine
   Sem.Native Engine.GenMachine Engine.Restore Engine.RunGen Engine.IRMachine Engine.QueryFacts Engine.Refine Engine.RefineCompiled
-  Engine.RefineNative Engine.RefineExc Engine.RefineRaising Engine.RunMachine Engine.FindallRaise.
+  Engine.RefineNative Engine.RefineExc Engine.RefineRaising Engine.RunMachine Engine.FindallRaise Engine.DelayedClose.
 
 (* A unification generator created under ANY heap h and driven by ANY sequence of
    __next__ / close() (= drop) operations:
@@ -347,6 +347,21 @@ Theorem C03_findall_copy_raise_step :
   /\ m_iclose h1 it1 = h.
 Proof. exact findall_r_raise_step. Qed.
 Print Assumptions C03_findall_copy_raise_step.
+
+(* The ORDER of finalisation does not matter.  In CPython the suspended goal generator of the scenario above sits in a local
+   of findall's frame, which the traceback keeps alive: it is finalised when the exception object dies, AFTER the enclosing
+   generators were closed by the unwinding; the machine closes it first.  For the engine instance closing a generator object
+   removes exactly the cells its leaves own, from any heap: closing `it` after the continuation k was unwound = closing it
+   first; any two generator objects can be closed in either order. *)
+Theorem C03_delayed_close_commutes : forall (it : iter leaf lx fr callp) (k : kont leaf lx fr callp) h,
+  iclose lclose (unwind lclose h k) it = unwind lclose (iclose lclose h it) k.
+Proof. exact delayed_close_commutes. Qed.
+Print Assumptions C03_delayed_close_commutes.
+
+Theorem C03_close_order_irrelevant : forall (it1 it2 : iter leaf lx fr callp) h,
+  iclose lclose (iclose lclose h it1) it2 = iclose lclose (iclose lclose h it2) it1.
+Proof. exact close_order_irrelevant. Qed.
+Print Assumptions C03_close_order_irrelevant.
 
 (* non-vacuity: findall(g(X), p(X), L) over the facts p(a). p(f(b)). under a non-empty heap: without a raising copy one
    answer L = [g(a), g(f(b))]; when the copy of the SECOND answer raises (the goal is suspended at p(f(b)) with X bound)
